@@ -60,6 +60,9 @@ func RunJobs(w *core.World, rep *core.Report, jobs []Job) {
 	for i, fx := range out {
 		name := sym.FuncName(jobs[i].Fn)
 		rep.Functions = append(rep.Functions, name)
+		if os.Getenv("VERIF_SLOW") != "" {
+			fmt.Fprintf(os.Stderr, "JOB %s{%s} forks=%d merges=%d returns=%d aborted=%q\n", name, fx.Tag, fx.Paths, fx.Merges, fx.Returns, fx.Aborted)
+		}
 		if fx.Aborted != "" {
 			rep.Aborted[name] = fx.Aborted
 			continue
